@@ -8,7 +8,8 @@
 //!                                (what RibUnitRunner::run does on GateStatus::Reconfiguring); the API is NOT rebuilt
 //!   P k asn|-|x                  peer k: registered with remote AS / without / not registered
 //!   A k fam addr/len tag path comms   announce (fam 0 v4u 1 v6u 2 v4m 3 v6m; addr hex;
-//!                                     path: '-' or comma list of ASNs, 's' = an AS_SET segment;
+//!                                     path: '-' or comma list of ASNs, 's' = an AS_SET segment, 'n' = the AS_SEQUENCE
+//!                                     segment ends here (the next ASN starts another one);
 //!                                     comms: '-' (no community attribute) or items separated by '/', one per
 //!                                     community-carrying attribute, in the order they get in the UPDATE:
 //!                                     `u32,u32,..` = COMMUNITIES (decimal), `K=hex,hex,..` with K = s COMMUNITIES(8)
@@ -124,7 +125,7 @@ pub fn announce_bytes(fam: u32, p: &Pfx, tag: u32, path: &str, comms: &str) -> B
     };
     for item in &before { pas.extend(community_attr(item)); }
     pas.extend(attr(0x40, 1, &[0])); // ORIGIN igp
-    // AS_PATH: runs of ASNs become AS_SEQUENCE segments, 's' an AS_SET {64999}
+    // AS_PATH: runs of ASNs become AS_SEQUENCE segments, 's' an AS_SET {64999}, 'n' cuts a run in two segments
     let mut segs: Vec<u8> = vec![];
     if path != "-" {
         let mut run: Vec<u32> = vec![];
@@ -141,6 +142,8 @@ pub fn announce_bytes(fam: u32, p: &Pfx, tag: u32, path: &str, comms: &str) -> B
                 flush(&mut run, &mut segs);
                 segs.extend_from_slice(&[1, 1]);
                 segs.extend_from_slice(&64999u32.to_be_bytes());
+            } else if h == "n" {
+                flush(&mut run, &mut segs); // the sequence goes on in a new AS_SEQUENCE segment
             } else {
                 run.push(h.parse().expect("asn"));
             }
